@@ -116,6 +116,40 @@ def judge_history_frame(case):
     return None
 
 
+SPELL = {'a': ('!del', "!metadata{{'delete': True}}", '{x: 5}'), 'b': ('!merge', "!metadata{{'delete': False}}", '{z: 6}'),
+         'c': ('!del', "!metadata{{'delete': True}}", '{x: 7}'), 'd': ('!force', "!metadata{{'priority': 1}}", '{x: 8}'), 'e': ('!weak', "!metadata{{'priority': -1}}", '{y: 9}')}
+
+
+def spelling_cases():
+    """the merged value at a path must not depend on HOW sibling paths spell their tags: every subset of the entries of one document written in
+    the long `!metadata{{..}}` spelling (up to five such blocks in one source), unwrapped and wrapped"""
+    import itertools
+    out = []
+    for r in range(0, 6):
+        for sub in itertools.combinations('abcde', r):
+            out.append(dict(spelling=True, long=list(sub), keys=[]))
+    out.append(dict(spelling=True, long=list('abcde'), keys=['w']))
+    out.append(dict(spelling=True, long=list('abd'), keys=['p', 'q']))
+    return out
+
+
+def judge_spelling(case):
+    basetext = '{' + ', '.join(f'{k}: {{x: 1, y: 2}}' for k in 'abcde') + '}'
+    def newer(long):
+        return '{' + ', '.join(f'{k}: {SPELL[k][1] if k in long else SPELL[k][0]} {SPELL[k][2]}' for k in 'abcde') + '}'
+    def wrap(t):
+        for k in reversed(case['keys']):
+            t = '{%s: %s}' % (k, t)
+        return t
+    ref = outcome([wrap(basetext), wrap(newer([]))])
+    got = outcome([wrap(basetext), wrap(newer(case['long']))])
+    if ref[0] != 'ok':
+        return dict(case=case, reason='control: the short spelling must build', got=ref[0])
+    if got != ref:
+        return dict(case=case, reason='the long spelling of the tags of SOME entries changed the outcome (of these or of sibling entries)', text=newer(case['long']), short=repr(ref)[:300], long=repr(got)[:300])
+    return None
+
+
 def run(rep, tier, rng):
     rep.rule = ('merge histories (2-4 documents, all merge-control tags incl. !del/!merge/priorities/!new/!unsafe) built at depth 0 and wrapped under 1-3 keys drawn from the SAME '
                 'alphabet as the document keys; with/without an extra sibling key; frame check on 2-document histories. non-trivial = history with a deleting or prioritised node '
@@ -145,6 +179,7 @@ def run(rep, tier, rng):
     show = lambda c: {k: ([gen.render(d) for d in v] if k == 'docs' else ([gen.render(e) if e else None for e in v] if k == 'extra' else v)) for k, v in c.items()}
     base.run_oracle(rep, 'C05', 'wrapped vs unwrapped build', wraps, judge_wrap, show=show)
     base.run_oracle(rep, 'C05', 'sibling independence', sibs, judge_sibling, show=show)
+    base.run_oracle(rep, 'C05', 'sibling independence of the tag SPELLING (up to five {{..}} blocks in one source)', spelling_cases(), judge_spelling)
     base.run_oracle(rep, 'C05', 'frame: unmentioned paths unchanged', frames, judge_frame, show=show)
     base.run_oracle(rep, 'C05', 'frame across a history: a stage that does not mention a path does not influence later merges at it',
                     [gen_history_frame(rng) for _ in range(80 if tier == 'quick' else 1500)], judge_history_frame)
@@ -155,6 +190,10 @@ def replay(data):
     if 'input' in r:
         from ..reparse import parse_doc
         x = r['input']
+        if x.get('spelling') or (isinstance(x.get('case'), dict) and x['case'].get('spelling')):
+            f = judge_spelling(x.get('case', x))
+            print('replay:', 'property FAILS' if f else 'property holds', f or '')
+            return 1 if f else 0
         if x.get('frame3'):
             f = judge_history_frame(x)
             print('replay:', 'property FAILS' if f else 'property holds', f or '')
